@@ -10,16 +10,18 @@ def run(tier):
     n0, n1, n2 = (1500, 200, 12) if thorough else (300, 40, 10)
     total_ev = 0
     nentries = 0
-    for cfg in ["stable", "nightly"]:
+    for cfg in ["stable", "nightly", RELEASE]:
+        # the optimised build has the entry points of the nightly build (same features, other profile)
+        speccfg = "nightly" if cfg == RELEASE else cfg
         names = [l for l in conform(cfg, ["rng-list"]).splitlines() if l.strip()]
-        cfgfile = open(os.path.join(SPEC, "Rng_%s.cfg" % cfg)).read()
+        cfgfile = open(os.path.join(SPEC, "Rng_%s.cfg" % speccfg)).read()
         missing = [n for n in names if '"%s"' % n not in cfgfile]
         extra = [m for m in __import__("re").findall(r'"([^"]+)"', cfgfile.split("EntryPoints")[1].split("}")[0]) if m not in names]
         if missing or extra:
-            raise ToolError("entry-point list of Rng_%s.cfg and the harness differ: missing in spec %s, missing in harness %s" % (cfg, missing, extra))
+            raise ToolError("entry-point list of Rng_%s.cfg and the harness differ: missing in spec %s, missing in harness %s" % (speccfg, missing, extra))
         tr = os.path.join(wd, "trace_%s.ndjson" % cfg)
         env = None
-        if cfg == "nightly":
+        if cfg != "stable":
             # the generators of locked containers are also exercised while every lock request is refused (interposer)
             import protcommon
             protcommon.build_shim()
@@ -30,7 +32,7 @@ def run(tier):
         for e in evs:
             if e["ev"] == "panic" and not e["e"].endswith("refused]"):
                 ck.fail("%s: panicked" % e["e"], {"panic": e.get("panic")})
-        t = run_tlc("Rng", "Rng_%s" % cfg, workers=1, env={"TRACE": tr}, deque=True, xss="1g", coverage=False, timeout=3000, name="Rng" + cfg)
+        t = run_tlc("Rng", "Rng_%s" % speccfg, workers=1, env={"TRACE": tr}, deque=True, xss="1g", coverage=False, timeout=3000, name="Rng" + cfg)
         ck.add_tlc(t, "Rng.tla trace validation (%s)" % cfg)
         rej = trace_rejection(t)
         if rej:
@@ -60,7 +62,7 @@ def run(tier):
                             return "one call returns the value of the previous call of the same entry point"
                         last[e["e"]] = e["v"]
                 return None
-            binding_selftest(ck, "Rng", "Rng_%s" % cfg, tr, _corrupt_rng, "rng trace " + cfg, timeout=3000)
+            binding_selftest(ck, "Rng", "Rng_%s" % speccfg, tr, _corrupt_rng, "rng trace " + cfg, timeout=3000)
         nentries = max(nentries, len(names))
     ck.cov["evaluations"] = total_ev
     if not ck.cov["distinct_nontrivial"]:
